@@ -86,6 +86,60 @@ def gen_params(rng, n, phase_mode, complex_amp=False, complex_trig=False):
     return dict(n=n, om=om, de=de, U=U, phis=phis, table=table)
 
 
+STRUCTURES = ["global", "equal-om-de/distinct-phi", "equal-om-de/distinct-phi", "equal-om/distinct-de", "one-zero-om",
+              "one-zero-de", "one-zero-phi", "all-zero-om", "all-zero-de", "all-zero-phi"]
+
+
+def apply_structure(rng, P, exact):
+    """structured drive rows (what real sequences look like): global pulses, equal amplitudes and detunings with distinct per-atom
+    phases, equal amplitudes with distinct detunings, one atom exactly zero in Omega / delta / phi, all-zero rows.
+    `exact`: phases are tags with an exact (cos, sin) table (C06 correspondence); otherwise real angles (numpy oracle)."""
+    n = P["n"]
+    kind = rng.choice(STRUCTURES)
+    om, de, ph = list(P["om"]), list(P["de"]), list(P["phis"])
+
+    def fresh_phase(k):
+        return float(20 + k) if exact else rng.uniform(0.2, 3.0) * rng.choice([1, -1])
+
+    def ensure_table():
+        if exact:
+            from harness import treevec_io as tio
+            for p_ in ph:
+                if p_ != 0.0 and p_ not in P["table"]:
+                    P["table"][p_] = (tio.cdyad(rng, 1, 2, real=True), tio.cdyad(rng, 1, 2, real=True))
+    nz = lambda z: z if z != 0 else 1.5 + 0j
+    if kind == "global":
+        om, de = [nz(om[0])] * n, [de[0]] * n
+        ph = [rng.choice([0.0, fresh_phase(0)])] * n
+    elif kind == "equal-om-de/distinct-phi":
+        om, de = [nz(om[0])] * n, [de[0]] * n
+        ph = [fresh_phase(k) for k in range(n)]
+        if n > 1 and rng.random() < 0.3:
+            ph[rng.randrange(1, n)] = 0.0            # qubit 0 keeps a non-zero phase, another one is exactly zero
+    elif kind == "equal-om/distinct-de":
+        om = [nz(om[0])] * n
+    elif kind.startswith("one-zero"):
+        k = rng.randrange(n)
+        if kind.endswith("om"):
+            om[k] = 0j
+        elif kind.endswith("de"):
+            de[k] = 0j
+        else:
+            ph = [p_ if p_ != 0.0 else fresh_phase(j) for j, p_ in enumerate(ph)]
+            ph[k] = 0.0
+    else:
+        if kind.endswith("om"):
+            om = [0j] * n
+        elif kind.endswith("de"):
+            de = [0j] * n
+        else:
+            ph = [0.0] * n
+    P["om"], P["de"], P["phis"] = om, de, ph
+    ensure_table()
+    P["structure"] = kind
+    return P
+
+
 def pi_phases(rng, n):
     """phases that are integer multiples of pi with at least one odd multiple (global pi pulse, [pi, 0, pi], echo 0/pi), sometimes
     mixed with one generic phase: H is real (or nearly) but cos(phi) = -1 on some atoms"""
@@ -157,6 +211,9 @@ def correspondence(rep: Report, rng, tier: str) -> None:
         mode = rng.choice(["zero", "tape", "tape", "mixed", "forced"])
         P = gen_params(rng, n, "zero" if mode == "forced" else mode,
                        complex_amp=rng.random() < 0.25, complex_trig=rng.random() < 0.25)
+        if mode != "forced" and i % 2:
+            P = apply_structure(rng, P, exact=True)
+            rep.hist("ham_structure", P["structure"])
         v = torch.tensor([tio.cdyad(rng, 1, 2) for _ in range(2 ** n)], dtype=tio.C128)
         bad_len = rng.random() < 0.04
         if bad_len:
@@ -226,6 +283,9 @@ def correspondence(rep: Report, rng, tier: str) -> None:
         n = rng.choice([1, 1, 2, 2, 3, 3, 4, nmax]) if quick else rng.randint(1, nmax)
         nl = rng.randint(0, 6) if n <= 4 else rng.randint(0, 3)
         P = gen_params(rng, n, rng.choice(["zero", "tape", "mixed"]), complex_trig=rng.random() < 0.2)
+        if i % 3 != 0:
+            P = apply_structure(rng, P, exact=True)
+            rep.hist("lind_structure", P["structure"])
         Ls = [tio.rand_m2(rng) for _ in range(nl)]
         herm = rng.random() < 0.75
         rho = tio.hermitian_dyadic(rng, 2 ** n) if herm else torch.tensor(
@@ -313,6 +373,8 @@ def oracle_case(rng, n, kind, nl=0):
         P["phis"] = pi_phases(rng, n)
     else:
         P["phis"] = [0.0 if pm == "zero" or (pm == "mixed" and rng.random() < 0.5) else rng.uniform(-math.pi, math.pi) for _ in range(n)]
+    if rng.random() < 0.6:
+        P = apply_structure(rng, P, exact=False)
     cosv = [math.cos(p) for p in P["phis"]]
     sinv = [math.sin(p) for p in P["phis"]]
     Hn = tio.np_dense_h([z.real for z in P["om"]], [z.real for z in P["de"]], cosv, sinv, P["U"], n)
@@ -346,10 +408,10 @@ def oracle(rep: Report, rng, count: int, nmax_l: int) -> None:
     for i in range(count):
         kind = rng.choice(["ham", "ham", "ham-forced-complex", "lind-cpu", "lind-batched"])
         if kind.startswith("ham"):
-            n = rng.randint(1, 8)
+            n = rng.choice([1, 2, rng.randint(1, 8), rng.randint(1, 8)])
             nl = 0
         else:
-            n = rng.randint(1, nmax_l)
+            n = rng.choice([1, 2, rng.randint(1, nmax_l), rng.randint(1, nmax_l)])
             nl = rng.randint(0, 6)
         try:
             err, d = oracle_case(rng, n, kind, nl)
@@ -385,7 +447,7 @@ def check(rep: Report, tier: str, seed: int) -> None:
     rep.extra["t_lean_stage_s"] = round(time.time() - t0, 1)
     rng = seeded(seed * 7919 + 6)
     correspondence(rep, rng, tier)
-    oracle(rep, seeded(seed * 104729 + 6), 60 if tier == "quick" else 1500, 6 if tier == "quick" else 7)
+    oracle(rep, seeded(seed * 104729 + 6), 90 if tier == "quick" else 1500, 6 if tier == "quick" else 7)
     rep.extra["t_total_s"] = round(time.time() - t0, 1)
     if rep.broken and not rep.failing:
         search(rep, seed, 400 if tier == "quick" else 4000)
